@@ -13,12 +13,12 @@ import (
 // specified. A max of 0 or less indicates there is no maximum.
 func (x Expr) Locate(data any, max int) (locs []Expr) {
 	if 0 < len(x) {
-		locs = x[0].locate(nil, data, x[1:], max)
+		locs = x[0].locate(nil, data, x[1:], max, data)
 	}
 	return
 }
 
-func locateNthChildHas(pp Expr, f Frag, v any, rest Expr, max int) (locs []Expr) {
+func locateNthChildHas(pp Expr, f Frag, v any, rest Expr, max int, root any) (locs []Expr) {
 	if len(rest) == 0 { // last one
 		loc := make(Expr, len(pp)+1)
 		copy(loc, pp)
@@ -29,12 +29,12 @@ func locateNthChildHas(pp Expr, f Frag, v any, rest Expr, max int) (locs []Expr)
 		case nil, bool, string, float64, float32, gen.Bool, gen.Float, gen.String,
 			int, uint, int8, int16, int32, int64, uint8, uint16, uint32, uint64, gen.Int:
 		case map[string]any, []any, gen.Object, gen.Array, Keyed, Indexed:
-			locs = rest[0].locate(append(pp, f), v, rest[1:], max)
+			locs = rest[0].locate(append(pp, f), v, rest[1:], max, root)
 		default:
 			if rt := reflect.TypeOf(v); rt != nil {
 				switch rt.Kind() {
 				case reflect.Ptr, reflect.Slice, reflect.Struct, reflect.Array, reflect.Map:
-					locs = rest[0].locate(append(pp, f), v, rest[1:], max)
+					locs = rest[0].locate(append(pp, f), v, rest[1:], max, root)
 				}
 			}
 		}
@@ -50,7 +50,7 @@ func locateAppendFrag(locs []Expr, pp Expr, f Frag) []Expr {
 	return append(locs, loc)
 }
 
-func locateContinueFrag(locs []Expr, cp Expr, v any, rest Expr, max int) []Expr {
+func locateContinueFrag(locs []Expr, cp Expr, v any, rest Expr, max int, root any) []Expr {
 	mx := max
 	if 0 < max {
 		mx = max - len(locs)
@@ -59,12 +59,12 @@ func locateContinueFrag(locs []Expr, cp Expr, v any, rest Expr, max int) []Expr 
 	case nil, bool, string, float64, float32, gen.Bool, gen.Float, gen.String,
 		int, uint, int8, int16, int32, int64, uint8, uint16, uint32, uint64, gen.Int:
 	case map[string]any, []any, gen.Object, gen.Array, Keyed, Indexed:
-		locs = append(locs, rest[0].locate(cp, v, rest[1:], mx)...)
+		locs = append(locs, rest[0].locate(cp, v, rest[1:], mx, root)...)
 	default:
 		if rt := reflect.TypeOf(v); rt != nil {
 			switch rt.Kind() {
 			case reflect.Ptr, reflect.Slice, reflect.Struct, reflect.Array, reflect.Map:
-				locs = append(locs, rest[0].locate(cp, v, rest[1:], mx)...)
+				locs = append(locs, rest[0].locate(cp, v, rest[1:], mx, root)...)
 			}
 		}
 	}
